@@ -63,7 +63,9 @@ def zt(v):
 class NormalizeSlice(Contract):
     name = "utils._normalize_slice"
     functions = ("pytato.utils:_normalize_slice",)
-    properties = ("C02", "C03", "C11")
+    # (C16: the axis length is symbolic -- "the inferred shape equals the
+    # concrete shape for every parameter valuation")
+    properties = ("C02", "C03", "C11", "C16")
 
     def instances(self, tier):
         return [dict(label=f"none-pattern={''.join(map(str, p))}", pat=list(p))
@@ -142,7 +144,9 @@ class NormalizedSliceLen(Contract):
     functions = ("pytato.utils:_normalized_slice_len",
                  "pytato.utils:_is_non_negative",
                  "pytato.utils:_is_non_positive")
-    properties = ("C02", "C03", "C11")
+    # (C16: the axis length is symbolic -- "the inferred shape equals the
+    # concrete shape for every parameter valuation")
+    properties = ("C02", "C03", "C11", "C16")
 
     def instances(self, tier):
         return [dict(label="ints")]
